@@ -1,8 +1,9 @@
 (* C11 — assembly of the statements exported to Properties_C11.v, with the
    non-vacuity examples.  The proofs proper are in ProofsLib (arrays),
    ProofsAL (array list), ProofsSeq (stack, linked list, queue), ProofsPS
-   (pointer slot). *)
-From MV Require Export C11.Model C11.ProofsLib C11.ProofsAL C11.ProofsSeq C11.ProofsPS.
+   (pointer slot), ProofsHeap (heap-level prev/next models of the linked
+   structures refine the functional ones), ProofsGen (leaf translator tie). *)
+From MV Require Export C11.Model C11.ModelHeap C11.ProofsLib C11.ProofsAL C11.ProofsSeq C11.ProofsPS C11.ProofsHeap C11.ProofsGen.
 Local Open Scope Z_scope.
 
 (* ---------------------------------------------------------------------- *)
@@ -114,3 +115,45 @@ Example ps_example :
           RIns POk 4; RIns POk 5; RIns POk 7; RIns PFull (-1); RRem PRange; RGet 13] /\
     alloc_index s' = 7 /\ free_index s' = 4294967295.
 Proof. do 3 eexists. split; [reflexivity|]. vm_compute. repeat split. Qed.
+
+(* ---------------------------------------------------------------------- *)
+(* heap level (explicit prev/next maps, pointer assignments as in the C text) *)
+
+Lemma hl_history : forall c ok hs ops, hl_init c ok = Some hs ->
+  exists s, ll_init c ok = Some s /\
+    (ll_ops_ok s ops ->
+     exists hs', hl_prun hs ops = Some (hs', snd (ll_run s ops)) /\
+       hl_forward hs' = litems (fst (ll_run s ops)) /\
+       hl_backward hs' = rev (map fst (hl_forward hs')) /\
+       wf_chain (hh hs') (map fst (hl_forward hs')) /\
+       (map snd (hl_forward hs'), snd (ll_run s ops)) = ref_ll_run [] ops (ll_fail_flags s ops)).
+Proof.
+  intros c ok hs ops H. pose proof (hl_init_R c ok) as R. rewrite H in R.
+  destruct (ll_init c ok) as [s|] eqn:E; [|contradiction]. exists s. split; auto. intros F.
+  destruct (ll_init_inv c ok s E) as [I _].
+  destruct (hl_prun_refines ops hs s I R F) as (hs' & E' & R' & I').
+  destruct (hl_walks_refine hs' _ I' R') as (W1 & W2 & _).
+  exists hs'. split; auto. split; auto. rewrite W1. fold (ids (fst (ll_run s ops))).
+  split; auto. split; [now apply hl_R_wf|].
+  destruct (ll_history_refines c ok s ops E F) as (Hr & _). exact Hr.
+Qed.
+
+Lemma hq_history : forall c ok hs ops, hq_init c ok = Some hs ->
+  exists q, qu_init c ok = Some q /\
+    exists hs', hq_run hs ops = Some (hs', snd (qu_run q ops)) /\
+      hl_forward hs' = qitems (fst (qu_run q ops)) /\
+      hl_backward hs' = rev (map fst (hl_forward hs')) /\
+      wf_chain (hh hs') (map fst (hl_forward hs')) /\
+      hq_front hs' = qu_front (fst (qu_run q ops)) /\
+      (map snd (hl_forward hs'), snd (qu_run q ops)) = ref_qu_run [] ops (qu_fail_flags q ops).
+Proof.
+  intros c ok hs ops H. pose proof (hq_init_R c ok) as R. rewrite H in R.
+  destruct (qu_init c ok) as [q|] eqn:E; [|contradiction]. exists q. split; auto.
+  destruct (qu_init_inv c ok q E) as [I _].
+  destruct (hq_run_refines ops hs q I R) as (hs' & E' & R' & I').
+  pose proof (qu_inv_ll _ I') as I''.
+  destruct (hl_walks_refine hs' _ I'' R') as (W1 & W2 & _).
+  exists hs'. split; auto. split; [exact W1|]. rewrite W1.
+  split; [exact W2|]. split; [exact (hl_R_wf hs' _ I'' R')|]. split; [now apply hq_front_refines|].
+  destruct (qu_history_refines c ok q ops E) as (Hr & _). exact Hr.
+Qed.
